@@ -764,6 +764,13 @@ def check_case(case):
 # --------------------------------------------------------------------------------------------
 # units
 
+def _judged(case):
+    """check_case under the runner's per-case wall limit (a hang becomes 'inconclusive')."""
+    import sys
+    from vlib.run import judge
+    return judge(sys.modules[__name__], case, 30.0)
+
+
 def _rand_pattern(rng, n):
     kind = rng.choice(PRINT_KINDS)
     return pattern_from(kind, n, rng.getrandbits(64), rng.getrandbits(64), rng.getrandbits(16))
@@ -771,7 +778,7 @@ def _rand_pattern(rng, n):
 
 def run_print_bulk(shard, nshards, tier, seed, ev):
     rng = random.Random(seed)
-    count = 4000 if tier == 'quick' else 250000
+    count = 3000 if tier == 'quick' else 250000
     nt = 0
     done = 0
     seen = set()
@@ -782,12 +789,13 @@ def run_print_bulk(shard, nshards, tier, seed, ev):
             continue
         seen.add(b)
         case = {'u': 'print', 'hex': b.hex()}
-        res = check_print_str(case, Result())
+        res = _judged(case)
         done += 1
         nt += bool(res.nontrivial)
         for lab in res.labels:
             ev.labels[lab] += 1
         ev.excluded += res.excluded
+        ev.inconclusive += bool(res.inconclusive)
         for key, msg in res.fails:
             ev.fail(key, case, msg)
         if i < 4:
@@ -837,7 +845,7 @@ def strat_print_batch():
 
 def run_parse_bulk(shard, nshards, tier, seed, ev):
     rng = random.Random(seed)
-    count = 4000 if tier == 'quick' else 250000
+    count = 3000 if tier == 'quick' else 250000
     nt = 0
     done = 0
     seen = set()
@@ -850,12 +858,13 @@ def run_parse_bulk(shard, nshards, tier, seed, ev):
         if d is None:
             continue
         case = {'u': 'repr', 'text': text}
-        res = check_parse_repr(case, Result())
+        res = _judged(case)
         done += 1
         nt += bool(res.nontrivial)
         for lab in res.labels:
             ev.labels[lab] += 1
         ev.excluded += res.excluded
+        ev.inconclusive += bool(res.inconclusive)
         for key, msg in res.fails:
             ev.fail(key, case, msg)
         if i < 4:
@@ -873,10 +882,11 @@ def units(tier):
     return [
         Unit('print-str', 'bulk', shards={'quick': 8, 'thorough': 16}, run=run_print_bulk),
         Unit('print-enum', 'enum', shards={'quick': 4, 'thorough': 16}, gen=gen_print_enum),
-        Unit('print-routes', 'hyp', shards=16, examples={'quick': 25, 'thorough': 4000},
+        Unit('print-routes', 'hyp', shards={'quick': 8, 'thorough': 16},
+             examples={'quick': 40, 'thorough': 4000},
              strategy=strat_print_batch),
         Unit('parse-repr', 'bulk', shards={'quick': 8, 'thorough': 16}, run=run_parse_bulk),
-        Unit('parse-routes', 'hyp', shards=16, examples={'quick': 60, 'thorough': 10000},
+        Unit('parse-routes', 'hyp', shards=16, examples={'quick': 50, 'thorough': 10000},
              strategy=strat_parse_routes),
     ]
 
@@ -915,4 +925,6 @@ KILLS = [
     'SURVIVED: removing either _apply_carry_den call in to_decimal - not a violation: worst print error drops from 0.75/0.63 to 0.55/0.50 units (the carries are a GW-compatibility quirk)',
     'SURVIVED: str_to_decimal zeros += 1 -> += 0 (trailing fraction zeros count as digits) - only changes the type where the statement is ambiguous (8+ digits through trailing zeros), both types accepted',
     "SURVIVED: _div_den 'work_man > rman' -> '>=' - error stays < 1 ulp",
+    'fix 840d7c81 reverse-applied -> parse.zero-mantissa-posexp + parse.double.ulp.ge17digits + parse.single.ulp.ge8digits (generated cases of parse-repr)',
+    'fix f381997f reverse-applied -> print.double.carry-to-pow10 (print-enum)',
 ]
